@@ -34,6 +34,20 @@ func handleExt(c *Conn, cfg SeederCfg, st *SeederState, m refwire.Msg) {
 		st.Mu.Lock()
 		st.ExtHS = mm
 		st.Mu.Unlock()
+		if len(cfg.PEXAdd) > 0 {
+			// peer exchange: offer the scripted addresses (BEP 11), to the id the remote assigned, else to a guessed one
+			rid := remoteExtID(st, "ut_pex")
+			if rid == 0 {
+				rid = 2
+			}
+			var added, flags []byte
+			for _, a := range cfg.PEXAdd {
+				ip4 := a.IP.To4()
+				added = append(added, ip4[0], ip4[1], ip4[2], ip4[3], byte(a.Port>>8), byte(a.Port))
+				flags = append(flags, 0x02)
+			}
+			c.Send(refwire.Msg{ID: refwire.Extended, ExtID: rid, Data: benc.Encode(benc.Dict{{K: "added", V: string(added)}, {K: "added.f", V: string(flags)}, {K: "dropped", V: ""}})})
+		}
 	case 3: // our ut_metadata id
 		t, _ := d.Get("msg_type")
 		p, _ := d.Get("piece")
